@@ -193,7 +193,21 @@ def scripted_family(run, fam, quick):
         for b in behs:
             out.append((b, {"unbind_route": "1", "tls": "starttls"}))
             out.append((b, {"unbind_route": "0", "tls": "starttls", "tls_delay_after": "1"}))
+        # a long-lived session: the tunnel still answers after an idle period (2 s quick, 12 s thorough)
+        idle = scen.scripted(run, [[R, D("c1"), S("c1", "starttls"), S("c1", "op"), S("c1", "op"), S("c1", "op", True), rel("c1", 4)]], consts)[0]
+        k = max(i for i, e in enumerate(idle) if e["a"] == "hend" and e["i"] == 2) + 1
+        idle = idle[:k] + [{"a": "sleep", "c": "", "i": 2000 if quick else 12000, "k": "", "s": "", "hold": False}] + idle[k:]
+        out.append((idle, {"unbind_route": "0", "tls": "starttls"}))
         return out
+    elif fam == "starttls-inflight":
+        # a request still in flight while the connection is upgraded (not something a conforming client does; exercised for C15 only)
+        R, D = {"a": "run"}, lambda c: {"a": "dial", "c": c}
+        S = lambda c, k, hold=False: {"a": "send", "c": c, "k": k, "hold": hold}
+        rel = lambda c, i: {"a": "release", "c": c, "i": i}
+        scripts = [[R, D("c1"), S("c1", "op", True), S("c1", "starttls"), rel("c1", 1), S("c1", "op")],
+                   [R, D("c1"), S("c1", "op", True), S("c1", "op", True), S("c1", "starttls"), rel("c1", 2), rel("c1", 1), {"a": "stop", "s": "s1"}]]
+        consts = {"Conns": '{"c1"}', "MaxReq": "4", "FrameKinds": '{"starttls", "op"}'}
+        return [(b, {"unbind_route": "0", "tls": "starttls"}) for b in scen.scripted(run, scripts, consts)] * 3
     elif fam == "ready":
         ok_addrs = ["", "ipv6", "ipv6-bare", "host", "port-only"]
         bad_addrs = ["in-use", "bad-noport", "bad-ipv4", "bad-ipv6", "bad-bracket", "bad-emptyport", "bad-brackets-empty", "bad-brackets-host"]
@@ -219,7 +233,7 @@ def scripted_family(run, fam, quick):
     return [(b, dict(cfgs[n % len(cfgs)])) for n, b in enumerate(behs)]
 
 
-SCRIPTED = {"deep", "manyconns", "ready", "stopstates", "starttls2"}
+SCRIPTED = {"deep", "manyconns", "ready", "stopstates", "starttls2", "starttls-inflight"}
 
 
 def run_families(run, names, cap):
